@@ -66,7 +66,9 @@ fn gen_big(which: &str, n: usize) -> (Fmt, Vec<u8>) {
 pub fn run(a: &Args) {
     let check = |fmt: Fmt, b: &[u8], canonical: bool, st: &mut Stats| -> String {
         let tag = if fmt == Fmt::Pth { "pth" } else { "smx" }; let id = format!("{tag} {}", if b.len() <= 4096 { hex(b) } else { format!("<{} bytes>", b.len()) });
-        let (r, peak) = peak_during(|| parse_write(fmt, b));
+        // allocation is measured around the parse alone; the Debug rendering and the re-written copy are the harness's
+        let (_, peak) = peak_during(|| guard(|| match fmt { Fmt::Pth => Pth::read(&mut Cursor::new(b)).is_ok(), Fmt::Smx => Smx::read(&mut Cursor::new(b)).is_ok() }));
+        let r = parse_write(fmt, b);
         if peak > 16 * b.len() + (256 << 10) { st.fail(format!("[C17] parsing a {}-byte {tag} input allocated {peak} bytes", b.len()), id.clone()); }
         match r {
             None => { st.fail(format!("[C17] the {tag} parser (or writer) panics"), id); "P".into() },
@@ -117,7 +119,10 @@ pub fn run(a: &Args) {
         for n in [255usize, 256, 257, 32767, 32768, 65535, 65536, 65537, 70001] {
             if !a.thorough() && n > 257 && n != 65536 && n != 32768 { continue; }
             let (fmt, b) = gen_big(which, n);
-            let (r, peak) = peak_during(|| parse_write(fmt, &b)); st.evaluations += 1; st.distinct_nontrivial += 1;
+            // allocation is measured around the parse alone (the Debug rendering and the re-written copy made by the harness are not the
+            // parser's): a parsed structure may take a small multiple of the bytes it was read from, never more
+            let (_, peak) = peak_during(|| guard(|| match fmt { Fmt::Pth => Pth::read(&mut Cursor::new(&b[..])).is_ok(), Fmt::Smx => Smx::read(&mut Cursor::new(&b[..])).is_ok() }));
+            let r = parse_write(fmt, &b); st.evaluations += 1; st.distinct_nontrivial += 1;
             let id = format!("big {which} {n}");
             if peak > 16 * b.len() + (256 << 10) { st.fail(format!("[C17] parsing the {}-byte file `{id}` allocated {peak} bytes", b.len()), id.clone()); }
             match r {
